@@ -160,6 +160,20 @@ CLAIMED = {
         'Trusted: the judge, signature model and type checker of vlib/c11_lib.py; terms outside the print/parse domain '
         '(property C07) make a round trip inconclusive.',
         'DESIGN.md §2 C11'),
+    'C12': (
+        'Hypothesis-generated process histories (imports of side-effecting modules, loads with limits, bogus limits, '
+        'metadata reloads, in-place extension, file touch / insert / delete / add-import / cycle / broken-file edits on a '
+        'private scratch copy) run in fresh subprocesses; the final and every intermediate load is compared with a '
+        'structural dump produced by an independent reference loader in another fresh process',
+        'Exploration. Quick: 26 fresh-process single loads (all 17 theories not above real plus a rotating third of the '
+        'others) and 32 random histories following a shape plan; thorough: all 43 single loads (exhaustive over theory '
+        'names) and 960 random histories. Limits cover none / start / any item, with items that share a name with an '
+        'earlier item of another kind boosted. Equality of dumps (types, constants, theorems by structure, attributes, '
+        'overloads) is decided per history; the space of histories is sampled.',
+        'Trusted: RefLoader in vlib/c12_worker.py (reads the JSON files itself, DFS in listed order, items.parse_item '
+        'for extensions; uses nothing of logic.basic; self-tested against a hand-written dump). The exception class of '
+        'a reported cycle is recorded, not enforced. Worker timeouts are inconclusive.',
+        'DESIGN.md §2 C12'),
     'C16': (
         'Hypothesis linear systems (random, planted, Farkas-boundary, slabs) through nine entry points; models checked '
         'by exact substitution, unsat claims refuted by validated z3 models and bounded brute force, proofs by the kernel',
